@@ -275,3 +275,18 @@ func init() {
 		},
 	})
 }
+
+func init() {
+	register(&Property{
+		ID:    "C20",
+		Units: []string{"fasthttp.doRequestFollowRedirects", "fasthttp.getRedirectURL", "fasthttp.stripSensitiveHeadersOnRedirect", "fasthttp.shouldStripSensitiveHeadersOnRedirect", "fasthttp.isDomainOrSubdomainBytes", "fasthttp.hostnameFrom", "fasthttp.splitHostPortBytes", "fasthttp.(*URI)", "fasthttp.splitHostURI", "fasthttp.(*Request).parseURI", "fasthttp.(*Request).SetRequestURI"},
+		Runs: []Run{
+			{Pkg: "fasthttp", Func: "vhC20Redirects", Quick: map[string]int{"redirects": 1, "hostLen": 2}, Thorough: map[string]int{"redirects": 1, "hostLen": 2}},
+			{Pkg: "fasthttp", Func: "vhC20Redirects", Thorough: map[string]int{"redirects": 2, "hostLen": 0}, ThoroughOnly: true, PathCap: 600000},
+		},
+		Assume: []string{
+			"the real redirect loop (doRequestFollowRedirects) with a recording clientDoer: initial URL http://a.co/start with Authorization and Cookie set, GET or POST with body; each hop answers 301/302/303/307/308 with Location = relative path, or {http://, https://, //, HTTP://u:p@} + ≤ hostLen arbitrary host-label bytes + {\"\", a.co, .a.co, xa.co} + {\"\", :81} + /p; MaxRedirects ∈ {0,1,2}; trust rule written independently (exact host or dot-suffix, ASCII case-insensitive, port ignored)",
+			"IPv6 literals, percent-escapes and non-label bytes in the host, Cookie2/Proxy-*/WWW-Authenticate (only Authorization, Proxy-Authorization and Cookie are observed) and the public Client/HostClient wrappers are outside this check",
+		},
+	})
+}
